@@ -344,6 +344,9 @@ class Engine:
         """a model of assumptions & PC (& extra) as {name: Fraction}, or None"""
         s = z3.Solver()
         s.set("timeout", timeout_ms)
+        for k, v in self.feas_opts.items():
+            s.set(k, v)
+        self.last_path_status = "unknown"
         for a in self.assumptions:
             s.add(a)
         for c in self.pc:
@@ -376,7 +379,9 @@ class Engine:
             if s.check() == z3.sat:
                 return self._model_dict(s.model())
             s.pop()
-        if s.check() != z3.sat:
+        r = s.check()
+        if r != z3.sat:
+            self.last_path_status = "unsat" if r == z3.unsat else "unknown"
             return None
         return self._model_dict(s.model())
 
